@@ -1,8 +1,12 @@
 package rules
 
 import (
+	"fmt"
 	"go/ast"
+	"go/token"
 	"go/types"
+	"sort"
+	"strings"
 
 	"golang.org/x/tools/go/cfg"
 
@@ -83,14 +87,110 @@ func c06ErrNilFor(p *core.Program, fi *FuncInfo, errField *types.Var, depth int)
 	}
 	var bad *ast.ReturnStmt
 	unknown := ""
-	seen := map[*cfg.Block]bool{f.g.Blocks[0]: true}
-	work := []*cfg.Block{f.g.Blocks[0]}
+	// env: what the error-typed locals hold on the path being walked: 'S' the stored error (non-nil, not io.EOF on this
+	// walk), 'E' another certainly non-nil error, 'N' nil, '?' something unknown
+	type item struct {
+		b   *cfg.Block
+		env map[types.Object]byte
+	}
+	keyOf := func(b *cfg.Block, env map[types.Object]byte) string {
+		ks := make([]string, 0, len(env))
+		for o, v := range env {
+			ks = append(ks, fmt.Sprintf("%p=%c", o, v))
+		}
+		sort.Strings(ks)
+		return fmt.Sprintf("%p|%s", b, strings.Join(ks, ","))
+	}
+	seen := map[string]bool{}
+	work := []item{{f.g.Blocks[0], map[types.Object]byte{}}}
 	nret := 0
 	for len(work) > 0 {
-		b := work[len(work)-1]
+		cur := work[len(work)-1]
 		work = work[:len(work)-1]
+		if k := keyOf(cur.b, cur.env); seen[k] {
+			continue
+		} else {
+			seen[k] = true
+		}
+		b := cur.b
+		env := map[types.Object]byte{}
+		for o, v := range cur.env {
+			env[o] = v
+		}
+		classify := func(e ast.Expr, pos token.Pos) byte {
+			e = ast.Unparen(e)
+			if isNilIdent(e) {
+				return 'N'
+			}
+			if o := objOf(info, e); o != nil {
+				if v, ok := env[o]; ok {
+					return v
+				}
+			}
+			if isStored(e) {
+				return 'S'
+			}
+			if c01IsErrNonNilExpr(info, e, f.factsAtPos(pos)) {
+				return 'E'
+			}
+			if v2, ok := e.(*ast.SelectorExpr); ok {
+				if o, isVar := info.Uses[v2.Sel].(*types.Var); isVar && !o.IsField() && o.Pkg() != nil && o.Parent() == o.Pkg().Scope() && isErrorType(o.Type()) {
+					return 'E' // exported error value of another package (osm.ErrScannerClosed)
+				}
+			}
+			return '?'
+		}
+		patom := func(a ast.Expr) c01Tri {
+			if x, neq, ok := c01NilCmp(a); ok {
+				if o := objOf(info, x); o != nil {
+					switch env[o] {
+					case 'S', 'E':
+						return c01Bool(neq)
+					case 'N':
+						return c01Bool(!neq)
+					}
+				}
+			}
+			if x, y, neq, ok := c01EqCmp(a); ok {
+				for _, pr := range [][2]ast.Expr{{x, y}, {y, x}} {
+					if o := objOf(info, pr[0]); o != nil && env[o] == 'S' && isIOVar(info, pr[1], "EOF") {
+						return c01Bool(neq)
+					}
+				}
+			}
+			if call, ok := ast.Unparen(a).(*ast.CallExpr); ok && isPkgFunc(callee(info, call), "errors", "Is") && len(call.Args) == 2 && isIOVar(info, call.Args[1], "EOF") {
+				if o := objOf(info, call.Args[0]); o != nil && env[o] == 'S' {
+					return c01F
+				}
+			}
+			return atom(a)
+		}
 		returned := false
 		for _, n := range b.Nodes {
+			switch st := n.(type) {
+			case *ast.AssignStmt:
+				for i, l := range st.Lhs {
+					o := objOf(info, l)
+					if o == nil || !isErrorType(o.Type()) {
+						continue
+					}
+					if len(st.Rhs) == len(st.Lhs) {
+						env[o] = classify(st.Rhs[i], st.Pos())
+					} else {
+						env[o] = '?'
+					}
+				}
+			case *ast.ValueSpec:
+				for i, nm := range st.Names {
+					if o := info.Defs[nm]; o != nil && isErrorType(o.Type()) {
+						if i < len(st.Values) {
+							env[o] = classify(st.Values[i], st.Pos())
+						} else {
+							env[o] = 'N'
+						}
+					}
+				}
+			}
 			ret, ok := n.(*ast.ReturnStmt)
 			if !ok {
 				continue
@@ -102,16 +202,9 @@ func c06ErrNilFor(p *core.Program, fi *FuncInfo, errField *types.Var, depth int)
 				continue
 			}
 			v := ast.Unparen(ret.Results[0])
-			switch {
-			case isStored(v):
-				// the stored error itself: non-nil on this walk
-			case c01IsErrNonNilExpr(info, v, f.factsAtPos(ret.Pos())):
+			switch classify(v, ret.Pos()) {
+			case 'S', 'E':
 			default:
-				if v2, ok := v.(*ast.SelectorExpr); ok {
-					if o, isVar := info.Uses[v2.Sel].(*types.Var); isVar && !o.IsField() && o.Pkg() != nil && o.Parent() == o.Pkg().Scope() && isErrorType(o.Type()) {
-						continue // exported error value of another package (osm.ErrScannerClosed)
-					}
-				}
 				if call, ok := v.(*ast.CallExpr); ok && depth < 2 {
 					if tf := c01Callee(fi.Pkg, call); tf != nil {
 						ib, iu := c06ErrNilFor(p, tf, errField, depth+1)
@@ -135,19 +228,63 @@ func c06ErrNilFor(p *core.Program, fi *FuncInfo, errField *types.Var, depth int)
 		cond := f.condOf(b)
 		for si, nb := range b.Succs {
 			if cond != nil && len(b.Succs) == 2 {
-				v := c01Eval(info, cond, atom)
+				v := c01Eval(info, cond, patom)
 				if (si == 0 && v == c01F) || (si == 1 && v == c01T) {
 					continue
 				}
 			}
-			if !seen[nb] {
-				seen[nb] = true
-				work = append(work, nb)
-			}
+			work = append(work, item{nb, env})
 		}
 	}
 	if nret == 0 && unknown == "" {
 		unknown = "no return statement reachable in " + fi.Name()
 	}
 	return bad, unknown
+}
+
+// c06KnownNil: while the paths after "Next() reported no further field" are walked, what is known about the nil-ness
+// of variables from the operands to the left of the Next() call in its condition (object -> is nil).
+var c06KnownNil map[types.Object]bool
+
+// c06NilFacts keeps the facts that are nil comparisons of a plain variable.
+func c06NilFacts(info *types.Info, facts []guardFact) map[types.Object]bool {
+	out := map[types.Object]bool{}
+	for _, ft := range facts {
+		x, neq, ok := c01NilCmp(ft.expr)
+		if !ok {
+			continue
+		}
+		if o := objOf(info, x); o != nil {
+			out[o] = ft.val != neq // (x == nil) true  or  (x != nil) false
+		}
+	}
+	return out
+}
+
+// c06KnownBranch: the condition of block b is decided by the known nil-ness of variables not assigned on the way;
+// it returns the only successor that can be taken.
+func c06KnownBranch(f *c01Fn, b *cfg.Block, assigned map[types.Object]bool) (bool, *cfg.Block) {
+	cond := f.condOf(b)
+	if cond == nil {
+		return false, nil
+	}
+	v := c01Eval(f.info, cond, func(a ast.Expr) c01Tri {
+		x, neq, ok := c01NilCmp(a)
+		if !ok {
+			return c01U
+		}
+		o := objOf(f.info, x)
+		isNil, known := c06KnownNil[o]
+		if o == nil || !known || assigned[o] {
+			return c01U
+		}
+		return c01Bool(isNil != neq)
+	})
+	switch v {
+	case c01T:
+		return true, b.Succs[0]
+	case c01F:
+		return true, b.Succs[1]
+	}
+	return false, nil
 }
